@@ -63,6 +63,10 @@ def stack_configs():
 
 
 CONFIGS = fifo_configs() + stack_configs()
+for _i, _c in enumerate(CONFIGS):
+    # every other design first creates a second container of the SAME element type but another depth (never used): the
+    # depth belongs to the specialisation just as the element type does
+    _c["decoy"] = _i % 2 == 1
 
 HEADER = [
     "from __future__ import annotations",
@@ -103,6 +107,8 @@ def render_fifo(cfg):
     rst = ", std.Reset(self.rst)" if cfg["reset"] else ""
     L.append(f"        pctx = std.SequentialContext(clk{rst}, step_cond=lambda: self.p_en)")
     L.append(f"        cctx = std.SequentialContext(clk{rst}, step_cond=lambda: self.c_en)")
+    if cfg.get("decoy"):
+        L.append(f"        decoy = std.Fifo[{ty}, {n + 3}]()")
     if tx or rx:
         L.append(f"        fifo = std.Fifo[{ty}, {n}](tx_delay={tx}, rx_delay={rx})")
     else:
@@ -158,6 +164,7 @@ def render_stack(cfg):
         "    full = Port.output(Bit)",
         "",
         "    def architecture(self):",
+        *([f"        decoy = std.Stack[{ty}, {n + 3}](mode=std.StackMode.{cfg['mode']})"] if cfg.get("decoy") else []),
         f"        stack = std.Stack[{ty}, {n}](mode=std.StackMode.{cfg['mode']})",
         "        @std.concurrent",
         "        def views():",
